@@ -41,6 +41,7 @@ type rec struct {
 }
 
 var stamp int64
+var onlyMode string
 
 func classify(err error) string {
 	switch {
@@ -86,8 +87,10 @@ func main() {
 		seed   = flag.Int64("seed", 1, "seed")
 		worker = flag.Bool("worker", false, "internal")
 		from   = flag.Int("from", 0, "internal: first program index")
+		mode   = flag.String("mode", "", "sched: only programs for validation against the scheduling model (spec/SchedTrace.tla)")
 	)
 	flag.Parse()
+	onlyMode = *mode
 	if *worker {
 		os.Exit(runWorker(*out, *n, *seed, *from))
 	}
@@ -103,7 +106,7 @@ func supervise(out string, n int, seed int64) int {
 	for from < n && bad < 12 {
 		part := out + ".part"
 		os.Remove(part)
-		cmd := exec.Command(self, "-worker", "-out", part, "-n", fmt.Sprint(n), "-seed", fmt.Sprint(seed), "-from", fmt.Sprint(from))
+		cmd := exec.Command(self, "-worker", "-out", part, "-n", fmt.Sprint(n), "-seed", fmt.Sprint(seed), "-from", fmt.Sprint(from), "-mode", onlyMode)
 		var stderr strings.Builder
 		cmd.Stderr = &stderr
 		cmd.Env = append(os.Environ(), "GORACE=halt_on_error=1 exitcode=66")
@@ -210,7 +213,11 @@ func runWorker(out string, n int, seed int64, from int) int {
 			Cap: []int{0, 0, 1, 16}[rnd.Intn(4)], Pace: []string{"fast", "fast", "slow", "events_only", "late"}[rnd.Intn(5)],
 			Procs: []int{1, 2, 4, 16}[rnd.Intn(4)]}
 		var dirty bool
-		if rnd.Intn(5) == 0 {
+		if onlyMode == "sched" {
+			p.Mode, p.Cap, p.Pace, p.Threads = "sched", 0, []string{"fast", "slow", "stall", "late"}[rnd.Intn(4)], 2
+			p.Procs = []int{1, 2, 4, 16}[rnd.Intn(4)]
+			dirty = runSched(p, i, rnd, emit)
+		} else if rnd.Intn(5) == 0 {
 			p.Mode, p.Cap, p.Pace, p.Threads = "duel", 0, "gated", 2+rnd.Intn(3)
 			p.Procs = []int{2, 4, 16}[rnd.Intn(3)]
 			dirty = runDuel(p, i, rnd, emit)
@@ -676,6 +683,253 @@ func runDuel(p program, idx int, rnd *rand.Rand, emit func(interface{})) (dirty 
 	if infra != "" {
 		emit(J{"k": "infra", "what": infra})
 	}
+	emit(J{"k": "endprog", "idx": idx, "hang": hang, "crashed": false})
+	return dirty
+}
+
+
+// runSched: a program inside the universe of the scheduling model (spec/InotifySched.tla): ONE watched file, two API
+// goroutines (Add / Remove / WatchList / Close on it), one file system goroutine (chmod, then perhaps one rename-away
+// or delete, chmod of the moved file), an unbuffered Watcher and a consumer that polls both channels at some pace.
+// Everything observable is logged with the shared atomic stamp - calls and returns, file system operations and
+// receives as intervals (begin / end) - and spec/SchedTrace.tla lets TLC search for an internal schedule of the
+// model (reader, lock, critical sections, kernel queue) that explains the log.
+func runSched(p program, idx int, rnd *rand.Rand, emit func(interface{})) (dirty bool) {
+	runtime.GOMAXPROCS(p.Procs)
+	root, _ := os.MkdirTemp("", "vstress-")
+	root, _ = filepath.EvalSymlinks(root)
+	defer os.RemoveAll(root)
+	os.Chdir(root)
+	defer os.Chdir("/")
+	os.WriteFile("p1", nil, 0o644)
+	atomic.StoreInt64(&stamp, 0)
+	emit(J{"k": "prog", "idx": idx, "id": p.ID, "mode": p.Mode, "threads": p.Threads, "cap": p.Cap, "pace": p.Pace, "procs": p.Procs})
+	var w *fsnotify.Watcher
+	var err error
+	for try := 0; try < 100; try++ {
+		if w, err = fsnotify.NewWatcher(); err == nil {
+			break
+		}
+		time.Sleep(100 * time.Millisecond)
+	}
+	if err != nil {
+		emit(J{"k": "infra", "what": "NewWatcher: " + err.Error()})
+		emit(J{"k": "endprog", "idx": idx, "hang": []string{}, "crashed": false})
+		return false
+	}
+	type ev struct {
+		Stamp int64  `json:"stamp"`
+		K     string `json:"k"` // call ret fsb fse rvb rve
+		T     string `json:"t"`
+		Op    string `json:"op"`
+		Res   string `json:"res"`
+	}
+	var mu sync.Mutex
+	var hist []ev
+	log := func(e ev) {
+		mu.Lock()
+		hist = append(hist, e)
+		mu.Unlock()
+	}
+	st := func() int64 { return atomic.AddInt64(&stamp, 1) }
+	// plans
+	type step struct{ op string }
+	plans := make([][]step, 2)
+	closer := -1
+	if rnd.Intn(2) == 0 {
+		closer = rnd.Intn(2)
+	}
+	for t := range plans {
+		for c := 0; c < 3+rnd.Intn(4); c++ {
+			plans[t] = append(plans[t], step{[]string{"add", "add", "remove", "watchlist"}[rnd.Intn(4)]})
+		}
+		if t == closer {
+			at := rnd.Intn(len(plans[t]) + 1)
+			plans[t] = append(plans[t][:at], append([]step{{"close"}}, plans[t][at:]...)...)
+		}
+	}
+	fsplan := []string{}
+	for c := 0; c < rnd.Intn(4); c++ {
+		fsplan = append(fsplan, "chmod")
+	}
+	switch rnd.Intn(3) {
+	case 0:
+		fsplan = append(fsplan, "move")
+		for c := 0; c < rnd.Intn(3); c++ {
+			fsplan = append(fsplan, "chmod")
+		}
+		if rnd.Intn(2) == 0 {
+			fsplan = append(fsplan, "delete")
+		}
+	case 1:
+		fsplan = append(fsplan, "delete")
+	}
+	stop := make(chan struct{})
+	var bg sync.WaitGroup
+	// consumer: polls (a rendezvous succeeds only when the reader is parked in its send)
+	bg.Add(1)
+	go func() {
+		defer bg.Done()
+		evs, errs := w.Events, w.Errors
+		if p.Pace == "late" {
+			<-stop
+		}
+		for evs != nil || errs != nil {
+			b := st()
+			got := ev{K: "rve", T: "c"}
+			select {
+			case e, ok := <-evs:
+				switch {
+				case !ok:
+					evs = nil
+					got.Op, got.Res = "ev", "closed"
+				case e.Has(fsnotify.Remove):
+					got.Op, got.Res = "ev", "remove"
+				case e.Has(fsnotify.Rename):
+					got.Op, got.Res = "ev", "rename"
+				case e.Has(fsnotify.Chmod):
+					got.Op, got.Res = "ev", "chmod"
+				default:
+					got.Op, got.Res = "ev", "other:"+e.Op.String()
+				}
+			case e, ok := <-errs:
+				if !ok {
+					errs = nil
+					got.Op, got.Res = "err", "closed"
+				} else {
+					got.Op, got.Res = "err", classify(e)
+				}
+			default:
+				select {
+				case <-stop:
+					if p.Pace == "stall" {
+						p.Pace = "fast"
+					}
+				default:
+				}
+				if p.Pace == "stall" {
+					time.Sleep(200 * time.Microsecond)
+				} else {
+					runtime.Gosched()
+				}
+				continue
+			}
+			log(ev{Stamp: b, K: "rvb", T: "c"})
+			got.Stamp = st()
+			log(got)
+			if p.Pace == "slow" {
+				time.Sleep(50 * time.Microsecond)
+			}
+		}
+	}()
+	if p.Pace == "stall" {
+		// the consumer exists but does not look for a while
+	}
+	// file system
+	var fsw sync.WaitGroup
+	fsw.Add(1)
+	go func() {
+		defer fsw.Done()
+		cur := "p1"
+		mode := os.FileMode(0o600)
+		for _, op := range fsplan {
+			time.Sleep(time.Duration(rnd.Intn(200)) * time.Microsecond)
+			log(ev{Stamp: st(), K: "fsb", T: "f", Op: op})
+			switch op {
+			case "chmod":
+				os.Chmod(cur, mode)
+				mode ^= 0o044
+			case "move":
+				os.Rename("p1", "moved")
+				cur = "moved"
+			case "delete":
+				os.Remove(cur)
+			}
+			log(ev{Stamp: st(), K: "fse", T: "f", Op: op})
+		}
+	}()
+	// API goroutines
+	var api sync.WaitGroup
+	inflight := make([]atomic.Value, 2)
+	for t := range plans {
+		api.Add(1)
+		go func(t int) {
+			defer api.Done()
+			name := fmt.Sprintf("t%d", t)
+			for _, s := range plans[t] {
+				inflight[t].Store(s.op)
+				log(ev{Stamp: st(), K: "call", T: name, Op: s.op})
+				r := ev{K: "ret", T: name, Op: s.op}
+				switch s.op {
+				case "add":
+					r.Res = classify(w.Add("p1"))
+				case "remove":
+					r.Res = classify(w.Remove("p1"))
+				case "watchlist":
+					l := w.WatchList()
+					switch {
+					case l == nil:
+						r.Res = "nil"
+					case len(l) == 0:
+						r.Res = "empty"
+					case len(l) == 1 && l[0] == "p1":
+						r.Res = "listed"
+					default:
+						r.Res = "other:" + strings.Join(l, ",")
+					}
+				case "close":
+					r.Res = classify(w.Close())
+				}
+				r.Stamp = st()
+				log(r)
+				inflight[t].Store("")
+			}
+		}(t)
+	}
+	apidone := make(chan struct{})
+	go func() { api.Wait(); fsw.Wait(); close(apidone) }()
+	hang := []string{}
+	select {
+	case <-apidone:
+	case <-time.After(8 * time.Second):
+		for t := range inflight {
+			if op, _ := inflight[t].Load().(string); op != "" {
+				hang = append(hang, op)
+			}
+		}
+		dirty = true
+	}
+	close(stop)
+	if !dirty {
+		// let the consumer catch up, then Close (if nobody did) and see the channels close
+		time.Sleep(2 * time.Millisecond)
+		log(ev{Stamp: st(), K: "call", T: "t9", Op: "close"})
+		done := make(chan string, 1)
+		go func() { done <- classify(w.Close()) }()
+		select {
+		case res := <-done:
+			log(ev{Stamp: st(), K: "ret", T: "t9", Op: "close", Res: res})
+		case <-time.After(5 * time.Second):
+			hang = append(hang, "close")
+			dirty = true
+		}
+	}
+	if !dirty {
+		c := make(chan struct{})
+		go func() { bg.Wait(); close(c) }()
+		select {
+		case <-c:
+		case <-time.After(5 * time.Second):
+			hang = append(hang, "channels_not_closed")
+			dirty = true
+		}
+	}
+	mu.Lock()
+	sort.Slice(hist, func(i, j int) bool { return hist[i].Stamp < hist[j].Stamp })
+	for _, e := range hist {
+		emit(e)
+	}
+	mu.Unlock()
 	emit(J{"k": "endprog", "idx": idx, "hang": hang, "crashed": false})
 	return dirty
 }
